@@ -149,10 +149,16 @@ def decode(ctx, rep):
     AD = b.calls_to(r"Buf::advance$")
     CN = b.calls_to(r"io::cursor::Cursor::<T>::new$")
     PR = [(bb, t) for bb, t in b.calls_to(r"binrw::binread::BinRead::read$") if callee(t)[2] and callee(t)[2][0] == "insim::packet::Packet"]
-    ok = all(len(x) == 1 for x in (DL, ST, AD, CN, PR))
-    rep.check("R4.2", "anchors", ok, "Codec::decode: expected one each of decode_length, split_to, advance, Cursor::new, Packet::read (found %s)" % [len(x) for x in (DL, ST, AD, CN, PR)], b.loc(),
-              sample={"counts": [len(x) for x in (DL, ST, AD, CN, PR)]})
+    split_form = all(len(x) == 1 for x in (DL, ST, AD, CN, PR))
+    inplace_form = len(DL) == 1 and not ST and len(AD) == 1 and len(CN) == 1 and len(PR) == 1
+    ok = split_form or inplace_form
+    rep.check("R4.2", "anchors", ok, "Codec::decode: expected one each of decode_length, split_to, advance, Cursor::new, Packet::read - or the in-place form: decode_length, Cursor::new over a bounded sub-slice, Packet::read, advance(n) (found %s)" % [len(x) for x in (DL, ST, AD, CN, PR)], b.loc(),
+              sample={"counts": [len(x) for x in (DL, ST, AD, CN, PR)], "form": "split" if split_form else "in-place" if inplace_form else "?"})
     if not ok:
+        return
+    if inplace_form and not split_form:
+        decode_inplace(rep, b, DL[0], AD[0], CN[0], PR[0])
+        rep.floor("R4.2", 8)
         return
     dl, st, ad, cn, pr = DL[0], ST[0], AD[0], CN[0], PR[0]
     src = ("arg", 2)
@@ -220,6 +226,81 @@ def decode(ctx, rep):
     rep.floor("R4.2", 10)
 
 
+def announced(b, o, tr):
+    """is origin o the Some payload of the (`?`-unwrapped) decode_length result?"""
+    x = o
+    while x[0] == "cast":
+        x = x[4]
+    if x[0] == "field":
+        x = x[1]
+    if x[0] == "downcast" and x[3] == "Some":
+        y = x[1]
+        if y[0] == "field":
+            y = y[1]
+        if y[0] == "downcast" and y[3] == "Continue" and tr is not None and y[1][0] == "call" and y[1][4] == tr[0]:
+            return True
+    return False
+
+
+def decode_inplace(rep, b, dl, ad, cn, pr):
+    """R4.2 for a decoder that parses the frame where it lies: the reader must be a sub-slice src[1..n] (n = the announced
+    length), and advance(n) must run on every path from the parse to a return, whether or not the parse succeeded."""
+    src = ("arg", 2)
+    a_src = strip_refs(b.origin(dl[1]["args"][1]))
+    rep.check("R4.2", "length-of-src", a_src == src, "decode_length must inspect the caller's buffer (found %s)" % (a_src,), b.loc(dl[1]["line"]), nontrivial=False)
+    tr = b.try_of_call(dl[0])
+    rep.check("R4.2", "length-error-propagated", tr is not None and b.ret_kinds(tr[3]) == {"residual"}, "a framing error must be returned", b.loc(dl[1]["line"]))
+    # reader over src[1..n]
+    c0 = strip_refs(b.origin(cn[1]["args"][0]))
+    okr = False
+    why = fmt_origin(c0)
+    x = c0
+    if x[0] == "call" and re.search(r"Index(Mut)?::index(_mut)?$", x[1]) and len(x[3]) == 2:
+        base = strip_refs(x[3][0])
+        while base[0] == "call" and re.search(r"Deref(Mut)?::deref(_mut)?$|as_ref$|AsRef::as_ref$", base[1]) and base[3]:
+            base = strip_refs(base[3][0])
+        rng = x[3][1]
+        if base == src and rng[0] == "agg" and "Range" in str(rng[1]) and "RangeFrom" not in str(rng[1]) and "RangeFull" not in str(rng[1]) and len(rng[2]) == 2:
+            lo, hi = rng[2]
+            okr = lo[0] == "const" and lo[1] == 1 and announced(b, hi, tr)
+            why = "src[%s..%s]" % (fmt_origin(lo), fmt_origin(hi))
+        elif base == src:
+            why = "an unbounded sub-slice %s" % fmt_origin(rng)
+    rep.check("R4.2", "reader-over-frame", okr,
+              "the packet reader must be confined to the announced frame, src[1..n] (found %s): reading from the rest of the connection buffer can run into the next frame" % why,
+              b.loc(cn[1]["line"]), sample={"cursor_over": why})
+    p0 = strip_refs(b.origin(pr[1]["args"][0]))
+    rep.check("R4.2", "packet-from-cursor", p0[0] == "call" and p0[4] == cn[0], "Packet::read must read from that cursor (found %s)" % fmt_origin(p0), b.loc(pr[1]["line"]))
+    # advance(src, n) on every path after the parse
+    a0 = strip_refs(b.origin(ad[1]["args"][0]))
+    a1 = b.origin(ad[1]["args"][1])
+    rep.check("R4.2", "split-exactly-announced", a0 == src and announced(b, a1, tr),
+              "advance must remove exactly the length decode_length announced from the same buffer (buffer %s, count %s)" % (a0, fmt_origin(a1)), b.loc(ad[1]["line"]),
+              sample={"count": fmt_origin(a1)})
+    rets = {i for i, bl in enumerate(b.blocks) if bl["term"] and bl["term"]["k"] == "return"}
+    after = b.reach(pr[1]["target"], avoid_blocks={ad[0]}) if pr[1].get("target") is not None else set()
+    rep.check("R4.2", "decode-error-after-removal", b.dominates(pr[0], ad[0]) and not (after & rets),
+              "the frame must be removed on every path after parsing it, also when parsing failed (a return is reachable without advance(n))", b.loc(ad[1]["line"]))
+    muts = []
+    for bb, t in b.calls():
+        for ai, a in enumerate(t["args"]):
+            if strip_refs(b.origin(a)) == src and t["argtys"][ai].startswith("&mut"):
+                muts.append(callee(t)[0])
+    only = [m for m in muts if not m.startswith("tracing") and "field::debug" not in m and not re.search(r"Deref(Mut)?::deref(_mut)?$", m)]
+    rep.check("R4.2", "only-split-mutates", only == ["bytes::buf::buf_impl::Buf::advance"] or only == ["bytes::bytes_mut::BytesMut::advance"],
+              "the caller's buffer is handed mutably to %s; only advance(n) may remove bytes" % only, b.loc(), sample={"mutators": only})
+    sw = None
+    if tr is not None:
+        r = b.switch_on(lambda o: o[0] == "discr" and any(c[4] == tr[0] for c in origin_calls(o[1])) and o[1][0] != "call")
+        sw = r[0] if r else None
+    if sw is not None:
+        none_t = sw[1].get(0, sw[2])
+        rep.check("R4.2", "need-more-data-untouched", ad[0] not in b.reach(none_t) and b.ret_kinds(none_t) == {"Ok"},
+                  "the need-more-data path must return Ok(None) without removing anything", b.loc(dl[1]["line"]))
+    else:
+        rep.fail("R4.2", "need-more-data-untouched", "decode_length's Option is not matched on", b.loc(dl[1]["line"]))
+
+
 def duration_instances(ctx):
     """(T, SCALE) of every binrw_parse_duration use, from the wire model"""
     out = set()
@@ -242,7 +323,7 @@ def inventory(ctx, rep):
 
     def extra(s):
         # split_to / advance in Codec::decode: discharged by R4.1 + R4.2 (n in [4, max] and n <= src.len(); frame length n >= 1)
-        if s["fn"] == "insim::net::codec::Codec::decode" and s["kind"] == "precondition" and s["what"].endswith(("BytesMut::split_to", "Buf::advance")):
+        if s["fn"] == "insim::net::codec::Codec::decode" and s["kind"] == "precondition" and s["what"].endswith(("BytesMut::split_to", "Buf::advance", "BytesMut::advance", "::index")):
             r41 = [i for i in rep.instances if i["rule"] == "R4.1" and not i["ok"]]
             r42 = [i for i in rep.instances if i["rule"] == "R4.2" and not i["ok"]]
             if not r41 and not r42:
